@@ -297,7 +297,7 @@ def _integrateOneStep(r, t, func, jac, args=(), full_output=False):
             e = np.linalg.eig(jac(r.t, r.y, *args))[0]
             return r.y, r.successful(), e, max(e), min(e)
         else:
-            return r.y
+            return r.y.copy()
     else:
         try:
             np.linalg.eig(jac(r.t, r.y, *args))
